@@ -58,53 +58,114 @@ func smBound(n int) int {
 // math/rand source is seeded, the draws the loop must make (rand.Intn(bound_n)) are taken once from that seed,
 // the source is seeded again and the loop runs: the n-th wait has to be the n-th draw.
 func execSupervisor(c Case) []string {
-	k := len(c.Ops)
+	// the ops describe one or more outages: `smwait` = a failed attempt followed by a wait, `smnew` = the attempt
+	// that succeeds and ends the outage (the next smwait belongs to a new outage, whose back-off starts again)
+	var outages []int
+	cur := 0
+	for _, op := range c.Ops {
+		if op[0] == "smnew" {
+			outages = append(outages, cur)
+			cur = 0
+		} else {
+			cur++
+		}
+	}
+	outages = append(outages, cur)
+	total := 0
+	for _, k := range outages {
+		total += k
+	}
 	h := fnv.New64a()
 	h.Write([]byte(c.ID))
 	seed := int64(h.Sum64() >> 1)
 	var draws []int
 	for ; ; seed++ {
+		// the draws the loop must make: rand.Intn(bound_n), n restarting at 0 with every outage
 		rand.Seed(seed)
 		draws = draws[:0]
 		sum := 0
-		for n := 0; n < k; n++ {
-			draws = append(draws, rand.Intn(smBound(n)))
-			sum += draws[n]
+		for _, k := range outages {
+			for n := 0; n < k; n++ {
+				draws = append(draws, rand.Intn(smBound(n)))
+				sum += draws[len(draws)-1]
+			}
 		}
-		// a seed whose last draw is far above the first bound (so that a loop that does not advance is seen) and
-		// whose total sleeping time stays small
-		if sum <= 900 && (k < 3 || draws[k-1] >= 3*smBound(0)) {
+		// and the draws a loop whose attempt counter is NOT reset between outages would make: the seed is chosen so
+		// that the two differ visibly at the first wait of the second outage
+		discriminates := true
+		if len(outages) > 1 && outages[1] > 0 {
+			rand.Seed(seed)
+			pos, n := 0, 0
+			wrong := 0
+			for oi, k := range outages {
+				for j := 0; j < k; j++ {
+					v := rand.Intn(smBound(n))
+					if oi == 1 && j == 0 {
+						wrong = v
+					}
+					n++
+					pos++
+				}
+			}
+			thr := smBound(outages[0]) / 2
+			if thr > 900 {
+				thr = 900
+			}
+			discriminates = outages[0] == 0 || wrong >= thr
+		}
+		last := draws[len(draws)-1]
+		if len(outages) == 1 {
+			last = draws[total-1]
+		}
+		if sum <= 1300 && discriminates && (len(outages) > 1 || total < 3 || last >= 3*smBound(0)) {
 			break
 		}
 	}
 	rand.Seed(seed)
-	fc := &smClient{fails: k}
-	sm := xmpp.NewStreamManager(fc, nil)
-	done := make(chan error, 1)
-	go func() { done <- xmpp.VerifStreamManagerResume(sm) }()
-	select {
-	case <-done:
-	case <-time.After(20 * time.Second):
-		obs := make([]string, k)
-		for i := range obs {
-			obs[i] = "hang"
+	obs := make([]string, 0, len(c.Ops))
+	di := 0
+	for oi, k := range outages {
+		fc := &smClient{fails: k}
+		sm := xmpp.NewStreamManager(fc, nil)
+		if oi > 0 {
+			sm = smShared
+			fc = smSharedClient
+			fc.fails, fc.starts, fc.ends = k, nil, nil
+		} else {
+			smShared, smSharedClient = sm, fc
 		}
-		return obs
-	}
-	obs := make([]string, k)
-	for n := 0; n < k; n++ {
-		if n+1 >= len(fc.starts) {
-			obs[n] = "missing-attempt"
-			continue
+		done := make(chan error, 1)
+		go func() { done <- xmpp.VerifStreamManagerResume(sm) }()
+		select {
+		case <-done:
+		case <-time.After(20 * time.Second):
+			for len(obs) < len(c.Ops) {
+				obs = append(obs, "hang")
+			}
+			return obs
 		}
-		gap := fc.starts[n+1].Sub(fc.ends[n])
-		obs[n] = fmt.Sprintf("%d %d %d", int64(gap), int64(draws[n])*1000000, int64(smBound(n))*1000000)
+		for n := 0; n < k; n++ {
+			if n+1 >= len(fc.starts) {
+				obs = append(obs, "missing-attempt")
+			} else {
+				gap := fc.starts[n+1].Sub(fc.ends[n])
+				obs = append(obs, fmt.Sprintf("%d %d %d", int64(gap), int64(draws[di])*1000000, int64(smBound(n))*1000000))
+			}
+			di++
+		}
+		if oi+1 < len(outages) {
+			obs = append(obs, "ok")
+		}
 	}
 	return obs
 }
 
+// one StreamManager (and its client) serves all the outages of a case
+var smShared *xmpp.StreamManager
+var smSharedClient *smClient
+
 func (c19) Exec(c Case) []string {
-	if len(c.Ops) > 0 && c.Ops[0][0] == "smwait" {
+	if len(c.Ops) > 0 && (c.Ops[0][0] == "smwait" || c.Ops[0][0] == "smnew") {
 		return execSupervisor(c)
 	}
 	b, _ := strconv.Atoi(c.Variant[0])
@@ -215,6 +276,16 @@ func (c19) Generate(rng *rand.Rand, tier string, st *Stats) []Case {
 		}
 		mk(fmt.Sprintf("sm-%d-%d", i, k), 0, 0, 0, false, ops)
 		st.Add("supervisor_waits", k)
+	}
+	// two outages on one StreamManager: the back-off of the second starts again at the base
+	{
+		var ops [][]string
+		for j := 0; j < 7; j++ {
+			ops = append(ops, []string{"smwait"})
+		}
+		ops = append(ops, []string{"smnew"}, []string{"smwait"}, []string{"smwait"})
+		mk("sm-two-outages", 0, 0, 0, false, ops)
+		st.Add("supervisor_waits", 9)
 	}
 	// region of the recorded finding F-19b: cap (ms) * 10^6 does not fit int64; powers of two only (exact float64)
 	for i, cp := range []int{1 << 44, 1 << 50, 1 << 62} {
